@@ -14,6 +14,7 @@
 #include <string.h>
 #include <stdint.h>
 #include <gmssl/error.h>
+#include <gmssl/verif.h>
 
 static int OPENSSL_hexchar2int(unsigned char c)
 {
@@ -151,7 +152,15 @@ void gmssl_memxor(void *r, const void *a, const void *b, size_t len)
 	const uint8_t *pa = a;
 	const uint8_t *pb = b;
 	size_t i;
-	for (i = 0; i < len; i++) {
+	for (i = 0; i < len; i++)
+	VERIF_LOOP_ASSIGNS(i, VERIF_OBJ_UPTO(pr, len))
+	VERIF_LOOP_INVARIANT(i <= len)
+	/* the byte at the free index verif_gk, once written, is the xor of the two ORIGINAL operand bytes; bytes not yet reached are untouched */
+	VERIF_LOOP_INVARIANT(verif_gk >= len || (verif_gk < i
+		? pr[verif_gk] == (uint8_t)(VERIF_LOOP_ENTRY(pa[verif_gk < len ? verif_gk : 0]) ^ VERIF_LOOP_ENTRY(pb[verif_gk < len ? verif_gk : 0]))
+		: (pa[verif_gk] == VERIF_LOOP_ENTRY(pa[verif_gk < len ? verif_gk : 0]) && pb[verif_gk] == VERIF_LOOP_ENTRY(pb[verif_gk < len ? verif_gk : 0]))))
+	VERIF_LOOP_DECREASES(len - i)
+	{
 		pr[i] = pa[i] ^ pb[i];
 	}
 }
